@@ -518,6 +518,12 @@ func Lock(m *sync.Mutex) {
 	tholds[cur]++
 }
 
+// InTask reports whether a simulated run is in progress (the caller is then one
+// of its tasks).
+//
+//go:norace
+func InTask() bool { return active }
+
 // Unlock is the simulator-aware replacement of (*sync.Mutex).Unlock.
 //
 //go:norace
